@@ -390,7 +390,7 @@ fn ntt120_vec_znx_big_normalize_inter<R, A, BE>(
     let res_size = res.size();
     let a_size = a.size();
 
-    let (carry, _) = carry.split_at_mut(n);
+    let (carry, spare) = carry.split_at_mut(n);
 
     let mut lsh: i64 = res_offset % base2k as i64;
     let mut limbs_offset: i64 = res_offset / base2k as i64;
@@ -420,6 +420,18 @@ fn ntt120_vec_znx_big_normalize_inter<R, A, BE>(
 
     if a_out_range == 0 {
         nfc_zero(carry);
+    }
+
+    // If the shifted `a` lies entirely below `res`, the carry of a[0] sits `gap` limbs
+    // below the last limb of `res`: bring it up by normalizing `gap` (virtual) zero limbs.
+    // After ceil(128 / base2k) + 1 steps the carry has reached a fixed point of the step.
+    let gap: usize = (-limbs_offset).saturating_sub(res_size as i64).max(0) as usize;
+    if gap != 0 {
+        let zero: &mut [i128] = &mut spare[..n];
+        nfc_zero(zero);
+        for _ in 0..gap.min((i128::BITS as usize).div_ceil(base2k) + 1) {
+            nfc_middle_carry_only(base2k, lsh_pos, zero, carry);
+        }
     }
 
     // Zero bottom res limbs that will not receive a value.
@@ -527,6 +539,17 @@ fn ntt120_vec_znx_big_normalize_cross<R, A, BE>(
         nfc_zero(a_carry);
     }
 
+    // If the shifted `a` lies entirely below `res`, the carry of a[0] sits `gap_bits`
+    // below the last bit of `res`: scale it down (with rounding) before it is propagated.
+    let gap_bits: usize = (-limbs_offset * a_base2k as i64).saturating_sub(res_tot_bits as i64).max(0) as usize;
+    if gap_bits != 0 {
+        if gap_bits < i128::BITS as usize {
+            nfc_mul_pow2_assign(-(gap_bits as i64), a_carry);
+        } else {
+            nfc_zero(a_carry);
+        }
+    }
+
     let mut res_acc_left: usize = res_base2k;
     let mut res_limb: usize = res_start - 1;
 
@@ -624,7 +647,7 @@ fn ntt120_vec_znx_big_normalize_inter_assign<O, R, A, BE>(
     let res_size = res.size();
     let a_size = a.size();
 
-    let (carry, _) = carry.split_at_mut(n);
+    let (carry, spare) = carry.split_at_mut(n);
 
     let mut lsh: i64 = res_offset % base2k as i64;
     let mut limbs_offset: i64 = res_offset / base2k as i64;
@@ -650,6 +673,18 @@ fn ntt120_vec_znx_big_normalize_inter_assign<O, R, A, BE>(
     }
     if a_out_range == 0 {
         nfc_zero(carry);
+    }
+
+    // If the shifted `a` lies entirely below `res`, the carry of a[0] sits `gap` limbs
+    // below the last limb of `res`: bring it up by normalizing `gap` (virtual) zero limbs.
+    // After ceil(128 / base2k) + 1 steps the carry has reached a fixed point of the step.
+    let gap: usize = (-limbs_offset).saturating_sub(res_size as i64).max(0) as usize;
+    if gap != 0 {
+        let zero: &mut [i128] = &mut spare[..n];
+        nfc_zero(zero);
+        for _ in 0..gap.min((i128::BITS as usize).div_ceil(base2k) + 1) {
+            nfc_middle_carry_only(base2k, lsh_pos, zero, carry);
+        }
     }
 
     let mid_range: usize = a_start.saturating_sub(a_end);
@@ -735,6 +770,17 @@ fn ntt120_vec_znx_big_normalize_cross_assign<O, R, A, BE>(
     }
     if a_out_range == 0 {
         nfc_zero(a_carry);
+    }
+
+    // If the shifted `a` lies entirely below `res`, the carry of a[0] sits `gap_bits`
+    // below the last bit of `res`: scale it down (with rounding) before it is propagated.
+    let gap_bits: usize = (-limbs_offset * a_base2k as i64).saturating_sub(res_tot_bits as i64).max(0) as usize;
+    if gap_bits != 0 {
+        if gap_bits < i128::BITS as usize {
+            nfc_mul_pow2_assign(-(gap_bits as i64), a_carry);
+        } else {
+            nfc_zero(a_carry);
+        }
     }
 
     let mut res_acc_left: usize = res_base2k;
